@@ -17,10 +17,15 @@ def undots(t):
     return [] if t == "-" else [int(x) for x in t.split(".")]
 
 
+def group_of(c, joined):
+    """consumers 2i and 2i+1 of a `joined` case are two requests of ONE task: they share the waker of consumer 2i"""
+    return c - (c % 2) if joined else c
+
+
 def parse_case(case):
     payload = case.partition(" ")[2]
     pieces = payload.split(";")
-    mode, k, src = pieces[0].split(":")
+    mode, k, src = pieces[0].split(":")[:3]
     needs, end = src.split("/")
     needs = [] if needs == "-" else [int(x) for x in needs.split(",")]
     if mode == "s":
@@ -28,8 +33,12 @@ def parse_case(case):
     return mode, int(k), needs, int(end), pieces[1:]
 
 
-def header(mode, k, needs, end):
-    return "%s:%d:%s/%d" % (mode, k, ",".join(map(str, needs)) if needs else "-", end)
+def is_joined(case):
+    return case.partition(" ")[2].split(";")[0].endswith(":j")
+
+
+def header(mode, k, needs, end, joined=False):
+    return "%s:%d:%s/%d%s" % (mode, k, ",".join(map(str, needs)) if needs else "-", end, ":j" if joined else "")
 
 
 class C17(Base):
@@ -95,22 +104,32 @@ class C17(Base):
                 ops.insert(rng.randrange(len(ops) + 1), "pf")       # prefetch at any point of the history
         return "cache " + ";".join([header("a", k, needs, end)] + ops)
 
-    def gen_fair(self, rng, maxlen, big=False):
+    def gen_fair(self, rng, maxlen, big=False, joined=False):
         """fair single-threaded executor: only tasks whose waker fired (or that were just spawned) are polled; when
         the run queue is empty the source fires.  Uses its own tiny simulation of the EXPECTED wake-ups only to
         decide whom to poll (no spurious polls, so pending_wakes stays duplicate-free and deep states are reached);
         a lost wake-up in the implementation is caught by the predicate's flag bookkeeping on the wake log."""
         k = rng.choice([2, 2, 3, 4])
         n = rng.choice([1, 2, 3, 4, 5])
+        if joined:
+            # requests 2i and 2i+1 are joined in ONE task (join!/FuturesUnordered inside a task): one waker for both,
+            # and the executor polls every unfinished request of a task whose waker fired
+            k = rng.choice([3, 4, 4, 5, 6])
+            n = rng.choice([2, 3, 4, 5])
         if big:
             if rng.random() < 0.6:
                 k = rng.choice([9, 10, 12, 17, 20])
             else:
                 n = rng.choice([9, 16, 17, 33, 40])
         needs = [rng.choice([0, 1, 1, 2]) for _ in range(n)]
+        if joined:
+            needs = [rng.choice([1, 1, 2]) for _ in range(n)]        # the source is pending at every position
         end = rng.choice([0, 1, 2])
         ops = []
         depth = {}
+
+        def mates(c):
+            return [c2 for c2 in range(k) if group_of(c2, joined) == group_of(c, joined)]
         for c in range(k):
             depth[c] = rng.randint(1, n + 1)
             ops.append("start:%d:%d:%s" % (c, depth[c], rng.choice("vvsmne")))
@@ -149,8 +168,9 @@ class C17(Base):
                             cached += 1
                             curr[c] += 1
                         for w in pend:
-                            if w not in runq:
-                                runq.append(w)
+                            for w2 in mates(w):
+                                if w2 not in runq and w2 not in done:
+                                    runq.append(w2)
                         pend = []
                         if ended:
                             done.add(c)
@@ -166,10 +186,11 @@ class C17(Base):
                 if not ended and need[idx] > 0:
                     need[idx] -= 1
                     if srcw is not None:
-                        if srcw not in runq:
-                            runq.append(srcw)
+                        for w2 in mates(srcw):
+                            if w2 not in runq and w2 not in done:
+                                runq.append(w2)
                         srcw = None
-        return "cache " + ";".join([header("a", k, needs, end)] + ops)
+        return "cache " + ";".join([header("a", k, needs, end, joined)] + ops)
 
     def gen_sync(self, rng, maxreq):
         k = rng.choice([1, 1, 2, 3])
@@ -201,6 +222,8 @@ class C17(Base):
             yield self.gen_sync(rng, 10)
         for _ in range(300 if quick else 10000):
             yield self.gen_fair(rng, 400, big=True)
+        for _ in range(1500 if quick else 40000):
+            yield self.gen_fair(rng, 120, joined=True)
         for _ in range(300 if quick else 10000):
             yield self.gen_async(rng, 150, big=True)
         # exhaustive family: 2 consumers, 3 bundles, all schedules of a fixed length (observations of every prefix
@@ -237,6 +260,10 @@ class C17(Base):
         if len(obs) != len(ops) + 1 or obs[0] != "hdr":
             return "observation count %d != op count %d (+hdr)" % (len(obs), len(ops))
         n = len(needs)
+        joined = is_joined(case)
+
+        def members(w):
+            return [c for c in range(k) if group_of(c, joined) == w]
         script_need = list(needs) + [end]
         polls = pulls = 0
         cur_need = script_need[0]
@@ -291,7 +318,7 @@ class C17(Base):
                 someone_runnable = any(waiting[c] and woken[c] for c in range(k))
                 if mode == "a" and cur_need > 0 and any(waiting) and not someone_runnable:
                     # every waiting task is parked: the source must hold the waker of one of them
-                    if len(wakes) != 1 or not waiting[wakes[0]]:
+                    if len(wakes) != 1 or not any(waiting[c] for c in members(wakes[0])):
                         return ("lost wake-up: requests %s are parked, nobody is runnable, the source fired and woke %s"
                                 % ([c for c in range(k) if waiting[c]], wakes))
                 if mode == "a" and cur_need > 0:
@@ -299,7 +326,8 @@ class C17(Base):
                 elif wakes:
                     return "a fire event on a ready source woke %s" % wakes
                 for w in wakes:
-                    woken[w] = True
+                    for c2 in members(w):
+                        woken[c2] = True
             else:
                 c = int(p[1])
                 d = depth[c]
@@ -343,7 +371,8 @@ class C17(Base):
                         return "source yielded an item that was not ready (harness script broken)"
                     cur_need = script_need[npulls]
                 for w in wakes:
-                    woken[w] = True
+                    for c2 in members(w):
+                        woken[c2] = True
                 if kind != "P" and m.group(2) is None and mode == "a" and cur_need != 0:
                     return "stream ended while the script still needs events"
             polls, pulls = npolls, npulls
